@@ -6,6 +6,7 @@ import (
 	"fmt"
 	"os"
 	"strings"
+	"time"
 
 	"github.com/tetratelabs/wazero"
 	"github.com/tetratelabs/wazero/experimental"
@@ -81,11 +82,12 @@ func allocA() []byte {
 func allocB() []byte {
 	m := &c.Mod{}
 	mx := uint32(4)
-	m.Types = [][]byte{c.FT(c.B(c.I32), c.B(c.I32))}
+	m.Types = [][]byte{c.FT(c.B(c.I32), c.B(c.I32)), c.FT(nil, nil)}
 	m.Imports = [][]byte{c.Cat(c.Name("a"), c.Name("mem"), c.B(2), c.MemLimits(1, &mx))}
-	m.Funcs = [][]byte{c.U32(0)}
-	m.Exports = [][]byte{c.Export("load", 0, 0)}
-	m.Codes = [][]byte{c.Code(nil, c.LocalGet(0), c.B(0x28), c.MemArg(2, 0))}
+	m.Funcs = [][]byte{c.U32(0), c.U32(1)}
+	m.Exports = [][]byte{c.Export("load", 0, 0), c.Export("spin", 0, 1)}
+	m.Codes = [][]byte{c.Code(nil, c.LocalGet(0), c.B(0x28), c.MemArg(2, 0)),
+		c.Code(nil, c.B(0x03, 0x40, 0x0c, 0x00, 0x0b))} // spin: loop br 0 end
 	return m.Bytes()
 }
 
@@ -103,7 +105,7 @@ func probeAlloc(ctx0 context.Context, engine string, h *History) {
 		} else {
 			rc = wazero.NewRuntimeConfigInterpreter()
 		}
-		r := wazero.NewRuntimeWithConfig(ctx, rc)
+		r := wazero.NewRuntimeWithConfig(ctx, rc.WithCloseOnContextDone(true))
 		a, err := r.InstantiateWithConfig(ctx, allocA(), wazero.NewModuleConfig().WithName("a"))
 		if err != nil {
 			panic(err)
@@ -131,7 +133,16 @@ func probeAlloc(ctx0 context.Context, engine string, h *History) {
 		fmt.Fprintf(os.Stdout, "@1\n")
 		out[1] = call(func() ([]uint64, error) { return live.ExportedFunction("load").Call(ctx, 8) })
 		fmt.Fprintf(os.Stdout, "@2\n")
-		if doClose {
+		if doClose && h.Probe == "alloc-ctxclose" {
+			// the importer is closed BY ITS CONTEXT while a call is in flight (resource closing deferred to FailIfClosed),
+			// then called again a few times: every such call re-runs the deferred resource closing
+			tctx, cancel := context.WithTimeout(ctx, 20*time.Millisecond)
+			_, _ = b.ExportedFunction("spin").Call(tctx)
+			cancel()
+			for k := 0; k < 3; k++ {
+				_, _ = b.ExportedFunction("load").Call(ctx, 8)
+			}
+		} else if doClose {
 			dead.Close(ctx)
 		}
 		out[2] = fmt.Sprintf("ok:free-calls=%d", freed)
